@@ -145,6 +145,16 @@ def run(ctx):
                                  sample={"rule": "WIRE", "sink": name + " -> op_return_tx_id", "origin": "zero"})
                             ti = argmap["tx_info"]
                             R.ob(mentions(ti, "load_brc20_mint_tx") or mentions(ti, "load_brc20_burn_tx"), "WIRE", c.where(), "WIRE|%s|tx_info" % name, "%s tx_info is `%s`" % (name, show(ti)[:70]))
+    # a parked transaction executed later inside another call sees the txid stored with it, never the outer call's
+    dl = ER.drain_loop(F)
+    R.ob(dl is not None, "WIRE", "engine", "WIRE|drain|anchor", "pending-pool drain loop not found")
+    if dl:
+        fn_, h_, body_, calls_ = dl
+        c = calls_[0]
+        opr = origin(fn_, c.args[atb.j["param_names"].index("op_return_tx_id")])
+        R.ob(mentions(opr, "get_pending_tx_op_return_tx_id") and W.strip(opr)[0] != "param", "WIRE", c.where(), "WIRE|drain|op_return",
+             "a drained (parked-then-executed) transaction sees `%s` as its Bitcoin transaction id, not the one stored with it" % show(opr)[:100],
+             sample={"rule": "WIRE", "sink": "drain -> op_return_tx_id", "origin": show(opr)[:100]})
     # controller loaders use the indexer address as sender
     for ln in ("load_brc20_mint_tx", "load_brc20_burn_tx", "load_brc20_deploy_tx"):
         lf = [f for f in F.fns.values() if f.name.endswith("brc20_controller::" + ln)]
